@@ -39,14 +39,11 @@ def main(argv=None) -> int:
     from .report import Ctx, finish
 
     try:
-        repo = Repo(args.repo)
+        repo, ctx, mod = run_views(prop, args.repo, None, args.tier)
         if repo.parse_errors:
             for e in repo.parse_errors:
                 print(f"ANALYSIS-ERROR property={prop} cannot parse {e}")
             return 2
-        mod = importlib.import_module(f"sa.props.{prop.lower()}")
-        ctx = Ctx(prop, repo, args.tier)
-        mod.run(ctx)
         if args.tier == "thorough" and hasattr(mod, "run_thorough"):
             mod.run_thorough(ctx)
         if args.only:
@@ -76,6 +73,86 @@ def main(argv=None) -> int:
         return 2
 
 
+def _group(o) -> str:
+    """obligations a rule emits about one function: rule id + `module:qualname` of the construct"""
+    parts = o.construct.split(":")
+    return o.rule.split(" ")[0] + "|" + ":".join(parts[:2])
+
+
+def run_views(prop: str, repo_root: str, overrides, tier: str):
+    """Evaluate the rules on the live view and, if something is not discharged, on the canonical view as well.
+
+    The canonical view replaces every function that differs from the verified reference by its canonical normal form (an
+    equivalent program). Per (rule, function) group the live verdict stands unless the whole group is discharged on the
+    canonical view: a rule that merely failed to recognise a restructured function then gets a second, normalised look at
+    it, while a group with a violation in both views stays a violation."""
+    from .cfg import clear_cache
+    from .model import Repo
+    from .report import Ctx, OK, INFO
+
+    clear_cache()
+    repo = Repo(repo_root, overrides=overrides)
+    if repo.parse_errors:
+        return repo, None, None
+    mod = importlib.import_module(f"sa.props.{prop.lower()}")
+    ctx = Ctx(prop, repo, tier)
+    err_a = None
+    try:
+        mod.run(ctx)
+    except Exception as e:  # AnchorMissing or a crash on an unfamiliar shape: the canonical view may still decide
+        err_a = e
+    bad = [o for o in ctx.obligations if o.status not in (OK, INFO)]
+    floors_short = [p for p, m in ctx.floors.items() if sum(1 for o in ctx.obligations if o.status in (OK, "violation") and o.rule.startswith(p)) < m]
+    if err_a is None and not bad and not floors_short:
+        return repo, ctx, mod
+    if os.environ.get("SA_NO_CANON") == "1" or os.environ.get("SA_ONE_VIEW") == "1":
+        if err_a is not None:
+            raise err_a
+        return repo, ctx, mod
+    clear_cache()
+    repo_b = Repo(repo_root, overrides=overrides, view="canonical")
+    ctx_b = Ctx(prop, repo_b, tier)
+    try:
+        mod.run(ctx_b)
+    except Exception:
+        if err_a is not None:
+            raise err_a
+        return repo, ctx, mod
+    if err_a is not None:
+        # the live view could not even be analysed; the canonical view stands on its own
+        ctx_b.notes.append(f"live view not analysable ({type(err_a).__name__}: {err_a}); verdict taken from the canonical view")
+        return repo_b, ctx_b, mod
+    groups_a, groups_b = {}, {}
+    for o in ctx.obligations:
+        groups_a.setdefault(_group(o), []).append(o)
+    for o in ctx_b.obligations:
+        groups_b.setdefault(_group(o), []).append(o)
+    merged = []
+    used_b = 0
+    seen = set()
+    for o in ctx.obligations:
+        g = _group(o)
+        if g in seen:
+            continue
+        seen.add(g)
+        ga = groups_a[g]
+        gb = groups_b.get(g, [])
+        a_ok = all(x.status in (OK, INFO) for x in ga)
+        b_ok = bool(gb) and all(x.status in (OK, INFO) for x in gb) and any(x.status == OK for x in gb)
+        if not a_ok and b_ok:
+            for x in gb:
+                x.detail = (x.detail + " [discharged on the canonical view]").strip()
+            merged.extend(gb)
+            used_b += 1
+        else:
+            merged.extend(ga)
+    ctx.obligations = merged
+    ctx.functions_analysed |= ctx_b.functions_analysed
+    ctx.extra["groups_discharged_on_canonical_view"] = used_b
+    clear_cache()
+    return repo, ctx, mod
+
+
 def evaluate(prop: str, repo_root: str, overrides=None):
     """Run the rules of one property without writing evidence.
 
@@ -88,12 +165,9 @@ def evaluate(prop: str, repo_root: str, overrides=None):
 
     clear_cache()
     try:
-        repo = Repo(repo_root, overrides=overrides)
+        repo, ctx, mod = run_views(prop, repo_root, overrides, "quick")
         if repo.parse_errors:
             return "error", [], "parse: " + "; ".join(repo.parse_errors)
-        mod = importlib.import_module(f"sa.props.{prop.lower()}")
-        ctx = Ctx(prop, repo, "quick")
-        mod.run(ctx)
     except AnchorMissing as e:
         return "error", [], f"anchor missing: {e}"
     except Exception as e:  # noqa
